@@ -244,8 +244,9 @@ pub fn gen_session(rng: &mut Rng, budget: usize, idx: usize) -> Value {
                     4..=6 => 1000 + rng.below(9000) as usize,
                     _ => 20000 + rng.below(120000) as usize,
                 }
-                .min(left);
-                left -= len;
+                ;
+                let len = if len > left { 1 + rng.below(200) as usize } else { len };
+                left = left.saturating_sub(len);
                 ops.push(json!(["w", len, rng.next() % 1000000]));
                 if rng.chance(2, 3) {
                     ops.push(json!(["f"]));
@@ -271,8 +272,8 @@ pub fn gen_session(rng: &mut Rng, budget: usize, idx: usize) -> Value {
     if rng.chance(2, 3) {
         ops.push(json!(["z", true]));
         for _ in 0..(3 + rng.below(5)) {
-            let len = (500 + rng.below(6000) as usize).min(left);
-            left -= len;
+            let len = 500 + rng.below(6000) as usize;
+            left = left.saturating_sub(len);
             ops.push(json!(["w", len, rng.next() % 1000000]));
             ops.push(json!(["p", 0]));
         }
@@ -305,7 +306,8 @@ pub fn main(args: &[String]) -> i32 {
         return 2;
     }
     let _ = std::fs::create_dir_all(&out);
-    let (count, budget) = if tier == "thorough" { (16, 1_500_000) } else { (5, 170_000) };
+    std::panic::set_hook(Box::new(|_| {}));
+    let (count, budget) = if tier == "thorough" { (14, 600_000) } else { (5, 170_000) };
     let sessions: Vec<Value> = match &replay {
         Some(f) => {
             let v: Value = std::fs::read_to_string(f).ok().and_then(|s| serde_json::from_str(&s).ok()).unwrap_or(Value::Null);
@@ -323,6 +325,7 @@ pub fn main(args: &[String]) -> i32 {
         if !sessions.iter().any(|s| s["mode"].as_str().unwrap_or("dumb") == mode) {
             continue;
         }
+        let _ = std::fs::write(format!("{}/current_session.json", out), json!({"mode": mode, "rates": [[65536, 0]], "ops": [], "calibration": true}).to_string());
         epilogues.insert(mode.to_string(), cal_epilogue(mode));
     }
     let mut coq = String::new();
@@ -336,7 +339,18 @@ pub fn main(args: &[String]) -> i32 {
     let mut drops = 0usize;
     for (i, s) in sessions.iter().enumerate() {
         let mode = s["mode"].as_str().unwrap_or("dumb").to_string();
-        let r = run_session(s, epilogues.get(&mode).map(|v| v.as_slice()));
+        let _ = std::fs::write(format!("{}/current_session.json", out), s.to_string());
+        let r = match std::panic::catch_unwind(std::panic::AssertUnwindSafe(|| run_session(s, epilogues.get(&mode).map(|v| v.as_slice())))) {
+            Ok(r) => r,
+            Err(_) => Outcome {
+                coq: "Sess (Pk 0 []) (Pk 0 []) [] (Pk 0 [])".into(),
+                json: s.clone(),
+                error: Some("the terminal object panicked".into()),
+                bytes: 0,
+                short_polls: 0,
+                drops_discarding: 0,
+            },
+        };
         if let Some(e) = &r.error {
             errors.push(format!("session {}: {}", i, e));
         }
@@ -354,6 +368,7 @@ pub fn main(args: &[String]) -> i32 {
     let meta = json!({"sessions": js, "errors": errors, "bytes_written": total,
                       "polls_returning_with_output_pending": short_polls, "drops_discarding_frames": drops});
     let _ = std::fs::write(format!("{}/sessions.json", out), serde_json::to_string(&meta).unwrap());
+    let _ = std::fs::remove_file(format!("{}/current_session.json", out));
     println!("pty16: {} sessions, {} bytes, {} partial polls, {} discarding drops, {} errors", js.len(), total, short_polls, drops, errors.len());
     if errors.is_empty() {
         0
